@@ -72,12 +72,17 @@ class DataSet:
             values: list[DataSetValue] = []
 
             address_end = line.find("(", from_pos)
+            if address_end == -1:
+                # no (more) data sets in this line
+                return (-1, None, values)
             if address_end > from_pos:
                 address = line[from_pos:address_end]
                 from_pos = address_end
 
             while from_pos > 0:
                 value_end_pos = line.find(")", from_pos)
+                if value_end_pos == -1:
+                    raise ValueError(f"Value without end: '{line[from_pos:]}'")
                 values.append(DataSetValue.parse(line[from_pos + 1 : value_end_pos]))
                 from_pos = value_end_pos + 1
 
